@@ -24,7 +24,7 @@ GEN_TIE = "ApdVerif.Props.GenTie"
 PROPS = {
     "C01": {
         "level": "proof",
-        "lean_modules": ["ApdVerif.Props.C01", "ApdVerif.Props.GenTieRound", "ApdVerif.Props.GenTieMisc"],
+        "lean_modules": ["ApdVerif.Props.C01", "ApdVerif.Props.GenTieRound", "ApdVerif.Props.GenTieMisc", "ApdVerif.Props.C01Parse"],
         "theorem_prefixes": ["C01_", "GenTie_"],
         "streams": [
             {"stream": "arith", "ops": ARITH_OPS, "n": {"quick": 40000, "thorough": 600000}},
@@ -213,7 +213,16 @@ PROPS.update({
         "level": "proof",
         "lean_modules": ["ApdVerif.Props.C06"],
         "theorem_prefixes": ["C06_"],
-        "streams": [{"stream": "alias", "n": {"quick": 20000, "thorough": 400000}}],
+        "streams": [{"stream": "alias", "n": {"quick": 20000, "thorough": 400000}},
+                    # every other stream, for the shared-state snapshots only (C06: constants and lookup tables unchanged by any call)
+                    {"stream": "digits", "n": {"quick": 2000, "thorough": 40000}, "projections": []},
+                    {"stream": "bigint", "n": {"quick": 6000, "thorough": 100000}, "projections": []},
+                    {"stream": "conv", "n": {"quick": 5000, "thorough": 100000}, "projections": []},
+                    {"stream": "text", "n": {"quick": 4000, "thorough": 80000}, "projections": []},
+                    {"stream": "strings", "n": {"quick": 5000, "thorough": 100000}, "projections": []},
+                    {"stream": "total", "n": {"quick": 4000, "thorough": 80000}, "projections": []},
+                    {"stream": "translog", "n": {"quick": 3000, "thorough": 60000}, "projections": []},
+                    {"stream": "order", "n": {"quick": 5000, "thorough": 100000}, "projections": []}],
         "projections": ["alias", "alias-imp", "methalias"],
         "oracle_tags": ["C06"],
         "trusted_extra": ["package tables and constants are observed through the verif hook VerifSnapshot before/after every call of the alias stream; history probes re-run recorded calls later in the process", COMPOSITE_NOTE],
